@@ -17,7 +17,7 @@ SPEC = dict(
     level='exploration',
     design_ref='DESIGN.md section 3, C08',
     rule=("wire: one case = one random abstract script (what code, 0-60 uniquely named fields of the 12 common types, 1-3000 items, "
-          "nesting <= 6, empty names/strings/raw items, UTF-8 incl. non-ASCII field names, user type codes, NaN payloads, +-0/inf/denormals, integer extremes) built NATIVELY as C++ Message, "
+          "nesting <= 6, empty names/strings/raw items, UTF-8 incl. non-ASCII field names, user type codes, NaN payloads, +-0/inf/denormals, integer extremes) built NATIVELY as C++ Message (each field through a randomly chosen construction route: append, prepend in reverse, sliding window, replace-at, build-longer-then-remove, both ends; so rings wrap and fields pass inline<->array), "
           "C MMessage, C UMessage, Python message.Message and by the reference codec ref/codec.py (written from the layout comment only); "
           "all byte strings must be identical, every implementation must read the C++ bytes back to the script's content through its own "
           "getters and re-serialise them identically, and C++ must do the same with the C codecs' bytes; a case is non-trivial when the "
@@ -31,7 +31,7 @@ SPEC = dict(
                  'python3 (CPython >= 3.8) is available; if it cannot be started the run is a harness failure (exit 2), never a pass',
                  'g++ 12 ASan/UBSan/LSan report what they claim to report; the misaligned link pointer in MiniMessageGateway.c is allow-listed (DESIGN.md 2.1)'],
     legs=[
-        Leg('regress', 'h_wire', 'asan', opts=_o(mode='regress'), quick=5, thorough=5, workers=1, leaks=True, min_cases=5),
+        Leg('regress', 'h_wire', 'asan', opts=_o(mode='regress'), quick=6, thorough=6, workers=1, leaks=True, min_cases=6),
         Leg('wire', 'h_wire', 'asan', opts=_o(mode='wire'), quick=200000, thorough=8000000, workers=16, leaks=True),
         Leg('frame', 'h_wire', 'asan', opts=_o(mode='frame'), quick=3200, thorough=96000, workers=16, leaks=True, per_worker_min=10),
         Leg('memcheck', 'h_wire', 'plain', opts=_o(mode='wire'), quick=1200, thorough=32000, workers=16, valgrind=True),
@@ -42,9 +42,11 @@ SPEC = dict(
                  'msgs_with_nesting': 8000, 'nan_float_double_items': 4000, 'zero_length_raw_items': 2000, 'empty_field_names': 2000,
                  'empty_strings': 2000, 'non_ascii_utf8_strings': 2000, 'multi_item_fields': 40000, 'msgs_with_non_ascii_field_names': 2000,
                  'user_typed_fields': 2000, 'py_str_items_in_user_typed_field': 2000,
+                 'route_append': 20000, 'route_prepend': 20000, 'route_sliding_window': 20000, 'route_replace_at': 20000,
+                 'route_longer_then_remove': 20000, 'route_both_ends': 20000, 'route_message_copied': 5000,
                  'items_bool': 4000, 'items_i8': 4000, 'items_i16': 4000, 'items_i32': 4000, 'items_i64': 4000, 'items_f32': 4000, 'items_f64': 4000,
                  'items_str': 4000, 'items_pt': 4000, 'items_rc': 4000, 'items_raw': 4000, 'items_msg': 4000},
         'frame': {'frames_compared_in_memory': 2000, 'frames_echoed_by_python': 2000, 'python_echo_peers_started': 1},
-        'regress': {'python_documentation_example_checked': 1, 'documented_frame_checked': 1},
+        'regress': {'python_documentation_example_checked': 1, 'documented_frame_checked': 1, 'wrapped_ring_fields_in_witness': 1},
     },
 )
